@@ -329,6 +329,36 @@ def Prog.size : Prog → Nat
   | .catch b => b.size + 2
   | _ => 1
 
+/-! ### `_check_opt_trivia` (fst_options.py:87): per-position grammar -/
+
+/-- how the check function sees one token (extracted: `Pfst.Gen.Options.trivTokens`) -/
+structure TrivTok where
+  isInt : Bool
+  isStr : Bool
+  lead  : Bool      -- `_re_trivia_leading.match`
+  trail : Bool      -- `_re_trivia_trailing.match` (additionally allows 'line…')
+deriving DecidableEq, Repr
+
+inductive TrivVal where
+  | one (t : TrivTok)            -- a value that is not a tuple
+  | tup (ts : List TrivTok)      -- a tuple
+deriving Repr
+
+def leadOk (t : TrivTok) : Bool := t.isInt || (t.isStr && t.lead)
+def trailOk (t : TrivTok) : Bool := t.isInt || (t.isStr && t.trail)
+
+/-- `_check_opt_trivia(...) is None` -/
+def checkTrivia : TrivVal → Bool
+  | .one t => leadOk t
+  | .tup [] => true
+  | .tup [t0] => trailOk t0
+  | .tup [t0, t1] => leadOk t0 && trailOk t1
+  | .tup _ => false
+
+def realTrivTok (i : Nat) : TrivTok :=
+  match Pfst.Gen.Options.trivTokens.getD i (false, false, false, false) with
+  | (a, b, c, d) => ⟨a, b, c, d⟩
+
 /-! ### nested option dicts (`sub()/subn()`: `copy_options`, `repl_options`; match.py `subn`) -/
 
 /-- `x_options = options if x_options is None else check_options(x_options)`: `None` inherits the call's top-level
